@@ -132,7 +132,7 @@ def canon(rec, amap):
 def _canon_cyto(items):
     nodes, edges = [], []
     for it in items:
-        d = dict(it["data"])
+        d = dict(it)
         if "source" in d and "target" in d:
             edges.append([d["source"], d["target"]])
         else:
@@ -193,15 +193,12 @@ def run_case(case):
                     elif acc == "columns":
                         live["paths"] = runner.get_column_lineage()
                         rec["column_paths"] = [[taps.coldesc(c) for c in p] for p in live["paths"]]
-                        rec["column_pairs"] = sorted({(p[0], p[-1]) for p in map(tuple, rec["column_paths"])})
-                        rec["column_pairs"] = [list(x) for x in rec["column_pairs"]]
                     elif acc == "cyto_table":
                         live["cyto_table"] = runner.to_cytoscape()
-                        rec["cyto_table"] = _canon_cyto(live["cyto_table"])
-                        rec["table_edges"] = rec["cyto_table"]["edges"]
+                        rec["cyto_table"] = [it["data"] for it in live["cyto_table"]]
                     elif acc == "cyto_column":
                         live["cyto_column"] = runner.to_cytoscape(LineageLevel.COLUMN)
-                        rec["cyto_column"] = _canon_cyto(live["cyto_column"])
+                        rec["cyto_column"] = [it["data"] for it in live["cyto_column"]]
                     elif acc == "summary":
                         live["summary"] = str(runner)
                         rec["summary"] = live["summary"]
@@ -243,6 +240,15 @@ def run_case(case):
     if "provider_after" in want and 'prov' in locals() and prov is not None:
         rec["session_after"] = dict(getattr(prov, "_session_metadata", {}))
     rec = canon(rec, amap)
+    # derived, order-normalised views are built only after anonymous subquery names are canonical
+    for k in ("cyto_table", "cyto_column"):
+        if k in rec:
+            rec[k] = _canon_cyto(rec[k])
+    if "cyto_table" in rec:
+        rec["table_edges"] = rec["cyto_table"]["edges"]
+    if "column_paths" in rec:
+        rec["column_pairs"] = [list(x) for x in sorted({(p[0], p[-1]) for p in rec["column_paths"]})]
+        rec["anon_subquery_names"] = bool(amap)
     rec["taps_missing"] = list(taps.MISSING)
     return rec
 
